@@ -137,6 +137,7 @@ class Interp:
         s.steps = 0
         s.max_steps = s.opts.get('max_steps', 50_000_000)
         s.globals = {}          # name -> Region
+        s.global_writes = set() # global regions stored to (function-local statics, file-scope state)
         s.log_access = s.opts.get('log_access', True)
         s.assumptions = set()
         s.events = []           # notes from summaries (contract checks etc.)
@@ -307,6 +308,8 @@ class Interp:
             s.writes.append((ptr.reg, k[1], size))
         if s.par is not None and ptr.reg.owner != ('par', s.par):
             s.par_log.append(('w', ptr.reg, k[1], size, s.cur_iter))
+        if ptr.reg.kind == 'global':
+            s.global_writes.add(ptr.reg)
         if ptr.reg.kind == 'param':
             if not hasattr(s, '_written'):
                 s._written = {}
@@ -1178,6 +1181,10 @@ BUILTINS = {
     '_ZSt17__throw_bad_allocv': lambda s, a, i: s.sink('throw', 'bad_alloc'),
     '__cxa_allocate_exception': lambda s, a, i: Ptr(s.new_region('exc', 'heap', extent=a[0] if isinstance(a[0], int) else 64, alloc='exc'), 0),
     '__cxa_atexit': lambda s, a, i: 0,
+    # function-local statics: the guard's first byte says "initialised" (Itanium ABI); initialisation is serialised by the runtime
+    '__cxa_guard_acquire': lambda s, a, i: 1 if s.load_cell(a[0], 1) == 0 else 0,
+    '__cxa_guard_release': lambda s, a, i: s.store_cell(a[0], 1, 1),
+    '__cxa_guard_abort': lambda s, a, i: None,
     '_ZNSt8ios_base4InitC1Ev': lambda s, a, i: None,
     'omp_set_dynamic': lambda s, a, i: s.events.append(('omp_set_dynamic', a[0])),
     'omp_set_num_threads': lambda s, a, i: s.events.append(('omp_set_num_threads', a[0])),
